@@ -38,8 +38,10 @@ pub fn base_params(k: usize) -> Parameters {
 }
 pub fn rand_params(rng: &mut Rng) -> Parameters {
     let mut p = base_params(rng.below(6));
-    match rng.below(4) {
+    match rng.below(5) {
         0 => {}
+        // offsets beyond half a turn (e.g. KUKA-style 1.5*pi): the solver must still normalise into [-pi, pi]
+        4 => { for i in 0..6 { if rng.below(2) == 0 { p.offsets[i] = rng.range(-6.0, 6.0); } } }
         1 => { for i in 0..6 { p.sign_corrections[i] = if rng.below(2) == 0 { 1 } else { -1 }; } }
         2 => { for i in 0..6 { p.offsets[i] = rng.range(-1.0, 1.0); p.sign_corrections[i] = if rng.below(2) == 0 { 1 } else { -1 }; } }
         _ => { p.offsets[4] = rng.range(-1.0, 1.0); p.sign_corrections[4] = if rng.below(2) == 0 { 1 } else { -1 }; p.b = rng.range(-0.1, 0.1); }
@@ -252,7 +254,7 @@ fn gen(rng: &mut Rng, what: &str, round: usize) -> Scn {
             // exactly singular J5 = 0 (model), previous realises the pose; J4 + J6 anywhere incl. across +-pi
             q = rand_joints(rng, 2.0);
             q[4] = (0.0 + p.offsets[4]) * p.sign_corrections[4] as f64;
-            if p.offsets[4] != 0.0 { p.offsets[4] = 0.0; q[4] = 0.0; }
+            if round % 4 == 2 { p.offsets[4] = 0.0; q[4] = 0.0; }
             q[3] = rng.range(-PI, PI); q[5] = rng.range(-PI, PI);
             if round % 4 == 0 { let t = if round % 8 == 0 { 0.0 } else { rng.range(-0.2, 0.2) }; q[5] = PI * (if rng.below(2) == 0 { 1.0 } else { -1.0 }) - q[3] + t; }
             prev = q;
